@@ -468,6 +468,7 @@ def run(case):
     wide = (wr.start, wr.end)
     loci = [reads.locus(g, gi) for gi in range(len(g.regions))]
     mnps = [(P, op) for (P, op) in g.mutations if ">" in op and len(op) > 3]
+    cat_dels = [(P, op) for (P, op) in g.mutations if op.startswith("del") and "ins" not in op[3:]]
     n = rng.randint(60, 300)
     rds = []
     for i in range(n):
@@ -496,6 +497,12 @@ def run(case):
             if rng.random() < 0.3:  # incomplete: one of the bases stays reference
                 k = rng.choice(list(force))
                 force[k] = ref.base(k)
+        if cat_dels and force is None and rng.random() < 0.12:
+            # a read carrying exactly a catalogued deletion (at the catalogue's placement)
+            P, op = rng.choice(cat_dels)
+            a_ = rng.randint(8, 40)
+            start = max(5, P - a_)
+            cig = [(0, P - start), (2, len(op) - 3), (0, max(8, length - (P - start)))]
         name = f"f{rng.randint(0, n // 2)}" if rng.random() < 0.6 else f"q{i}"
         rd = build_read(rng, ref, start, cig, name, force)
         fr = rng.random()
